@@ -2249,27 +2249,24 @@ def c11_worker(item):
         if mode == "patch":
             src = r.choice(["numeric", "mutant", "vocab", "valid"])
             # hostile patch text from the harness generators (one index -> bytes)
-            out = os.path.join(scr, "gen.json")
             idx = r.randrange(10**6) if src != "vocab" else r.randrange(1_200_000)
-            subprocess.run([HARNESS_BIN, "run", "--prop", "C11", "--gen", src, "--seed", str(seed), "--param", "4", "--start", str(idx), "--count", "1", "--out", out, "--keep", "0"],
-                           stdout=subprocess.DEVNULL, stderr=subprocess.DEVNULL, timeout=60)
-            import json as _j
+            from common import REPO
             try:
-                smp = _j.load(open(out))
-            except Exception:
-                return res
-            data = None
-            for s_ in smp.get("samples", []):
-                data = s_.get("input", "").encode("latin-1")
+                gp = subprocess.run([HARNESS_BIN, "genbytes", "--gen", src, "--seed", str(seed), "--param", "4", "--index", str(idx), "--repo", REPO],
+                                    stdout=subprocess.PIPE, stderr=subprocess.DEVNULL, timeout=60)
+                data = bytes.fromhex(gp.stdout.decode().strip()) if gp.returncode == 0 and gp.stdout.strip() else None
+            except (subprocess.TimeoutExpired, ValueError):
+                data = None
             if data is None:
-                # sample not kept (trivial input): regenerate simple hostile text
                 data = b"--- a/f\n+++ b/f\n@@ -%s,1 +1 @@\n-a\n+b\n" % r.choice([b"0", b"1", b"4294967296", b"9223372036854775807", b"18446744073709551615"])
             with open(os.path.join(work, "patches", "h.patch"), "wb") as f:
                 f.write(data)
             series = "h.patch" + r.choice(["", " -p0", " -p1", " -R", " -p2 -R"]) + "\n"
             desc = {"mode": "patch", "source": src, "patch": data.decode("latin-1")[:300], "series": series}
         else:
-            good = b"--- a/f\n+++ b/f\n@@ -1,3 +1,3 @@\n a\n-b\n+B\n c\n"
+            good = r.choice([b"--- a/f\n+++ b/f\n@@ -1,3 +1,3 @@\n a\n-b\n+B\n c\n",
+                             b'--- "a/f"\n+++ "b/f"\n@@ -1,3 +1,3 @@\n a\n-b\n+B\n c\n',
+                             b'diff --git "a/g h" "b/g h"\n--- "a/g h"\n+++ "b/g h"\n@@ -1 +1 @@\n-x\n+y\n'])
             with open(os.path.join(work, "patches", "ok.patch"), "wb") as f:
                 f.write(good)
             line = r.choice([
